@@ -21,19 +21,23 @@ def fr(p):
     return float(Fraction(p[0], p[1]))
 
 
-def equilibrium(neg, A, B, off=0):
+PSI_SCALE_EXPS = (0, -6, 3)        # FluxMap.tla: PsiScaleExps
+
+
+def equilibrium(neg, A, B, off=0, pexp=0):
     import numpy as np
     from raysect.core import Point2D
     from cherab.tools.equilibrium import EFITEquilibrium
-    key = (neg, A, B, off)
+    key = (neg, A, B, off, pexp)
     if key not in _EQ:
         r = np.arange(1.0, 8.0)
         z = np.arange(-3.0, 4.0)
         sgn = -1.0 if neg else 1.0
-        psi = sgn * (A * (r[:, None] - 4.0) ** 2 + B * z[None, :] ** 2)
+        ps = 10.0 ** pexp
+        psi = sgn * (A * (r[:, None] - 4.0) ** 2 + B * z[None, :] ** 2) * ps
         lcfs = np.array([[1.5, 6.5, 6.5, 1.5], [-2.5, -2.5, 2.5, 2.5]])
         limiter = np.array([[1.5, 6.5, 6.5, 4.5, 4.5, 1.5], [-2.5, -2.5, 0.5, 0.5, 2.5, 2.5]])
-        _EQ[key] = EFITEquilibrium(r, z, psi, sgn * off / 2.0, sgn * (A * 4 + B), Point2D(4.0, 0.0), [], [], np.array([[0.0, 1.0], [F0, F0]]),
+        _EQ[key] = EFITEquilibrium(r, z, psi, sgn * off / 2.0 * ps, sgn * (A * 4 + B) * ps, Point2D(4.0, 0.0), [], [], np.array([[0.0, 1.0], [F0, F0]]),
                                    np.array([[0.0, 1.0], [1.0, 2.0]]), BVAC_R, BVAC, lcfs, limiter, 0.0)
     return _EQ[key]
 
@@ -58,6 +62,19 @@ def replay(rec, ctx):
     inside = bool(eq.inside_lcfs(r, z))
     if inside != rec["inside"]:
         bad("inside_lcfs-differs", f"{inside} vs {rec['inside']}")
+    # the same flux function in other units
+    if rec["angle"] == [1, 0, 1]:
+        for pe in PSI_SCALE_EXPS[1:]:
+            eqs = equilibrium(rec["neg"], rec["A"], rec["B"], rec.get("off", 0), pe)
+            gs = eqs.psi_normalised(r, z)
+            bs, b0 = eqs.b_field(r, z), eq.b_field(r, z)
+            ps_, p0 = eqs.poloidal_vector(r, z), eq.poloidal_vector(r, z)
+            ok = core.close(gs, psin, rtol=1e-9, atol=1e-12) and bool(eqs.inside_lcfs(r, z)) == rec["inside"] \
+                and core.close([bs.x, bs.z], [b0.x * 10.0 ** pe, b0.z * 10.0 ** pe], rtol=1e-9, atol=1e-300) \
+                and core.close([ps_.x, ps_.y, ps_.z], [p0.x, p0.y, p0.z], rtol=1e-9, atol=1e-12)
+            if not ok:
+                bad(f"depends-on-the-unit-of-psi:1e{pe}", f"psi_n {gs!r} vs {psin!r}; B {bs} vs {b0} x 1e{pe}; poloidal vector {ps_} vs {p0}")
+                break
     if "inside_limiter" in rec and bool(eq.inside_limiter(r, z)) != rec["inside_limiter"]:
         bad("inside_limiter-differs", f"{bool(eq.inside_limiter(r, z))} vs {rec['inside_limiter']}")
     # between the nodes: the normalised flux is never negative and the mapped profile is the profile at that flux
